@@ -11,8 +11,9 @@
    is the reference's step on the name as given, and the theorem of FsDir.v
    carries over with [relpath]/[relleaf] weakened to [clean_path]/[clean_leaf_path].
 
-   Mknod (the host's mknod succeeding; when it fails dirFS writes an empty
-   regular file over the name: finding C17-F20) and Readnod (the name not itself
+   Mknod (the host's mknod succeeding, or answering EEXIST: since fix bfd5027 a
+   taken name is left alone, [mknod_existing]; on any other failure dirFS writes
+   an empty regular file under the name) and Readnod (the name not itself
    a symbolic link: dirFS asks os.Stat first, which follows it) are inside.
 
    The envelope clause of the overlay is a parameter [EV] of [denv_g]:
@@ -191,7 +192,8 @@ Qed.
 Definition denv_g (EV : st -> op -> bool) (d : dst) (o : op) : bool :=
   match o with
   | Link old new => clean_path old && clean_leaf_path new && link_ok (heap (d_host d)) old new && EV (d_ov d) o
-  | MkdirAll _ _ | Mknod _ _ _ => hplain_r o && EV (d_ov d) o && negb (is_failure (snd (spec_step (d_host d) o)))
+  | MkdirAll _ _ => hplain_r o && EV (d_ov d) o && negb (is_failure (snd (spec_step (d_host d) o)))
+  | Mknod _ _ _ => hplain_r o && EV (d_ov d) o && negb (mknod_fallback (snd (spec_step (d_host d) o)))
   | Readnod p => hplain_r o && EV (d_ov d) o && eres_nat_eqb (s_lnode (heap (d_host d)) p) (s_node (heap (d_host d)) p)
   | OpenFile _ fl _ => hplain_r o && (negb (f_creat fl) || EV (d_ov d) o)
   | ReadFile _ | Read _ _ | ReadAt _ _ _ | Write _ _ | Seek _ _ _ | Close _ => hplain_r o
@@ -286,11 +288,15 @@ Proof.
   - (* Chtimes *) env2 Hv HE.
     apply (L_hto d (Chtimes p t) (Chtimes p t) Hs eq_refl eq_refl eq_refl eq_refl eq_refl (host_call_r _ _ Hr Hv) HE).
     apply fail_same. reflexivity.
-  - (* Mknod: the host's mknod succeeds, then the overlay's *) env2 Hv HF. env2 Hv HE. apply negb_true_iff in HF.
-    pose proof (L_hto d (Mknod p perm dev) (Mknod p perm dev) Hs eq_refl eq_refl eq_refl eq_refl eq_refl (host_call_r _ _ Hr Hv) HE) as L.
-    unfold host_then_ov in L. rewrite (host_call_r _ _ Hr Hv) in *.
-    destruct (spec_step (d_host d) (Mknod p perm dev)) as [h1 r] eqn:Eh. cbn [snd] in HF. rewrite HF in *.
-    apply L. cbn [snd]. intro F. rewrite HF in F. discriminate F.
+  - (* Mknod: the host's mknod succeeds or says EEXIST (no fallback since fix bfd5027), then the overlay's *)
+    env2 Hv HF. env2 Hv HE. apply negb_true_iff in HF.
+    rewrite (host_call_r _ _ Hr Hv).
+    pose proof (pair_step (d_ov d) (d_host d) (Mknod p perm dev) (Mknod p perm dev) Hs eq_refl eq_refl eq_refl) as [P1 P2].
+    pose proof (keep_ops (d_host d) (Mknod p perm dev) eq_refl) as Kh. pose proof (keep_ops (d_ov d) (Mknod p perm dev) eq_refl) as Kv.
+    destruct (spec_step (d_host d) (Mknod p perm dev)) as [h1 r] eqn:Eh. cbn [snd fst] in *. rewrite HF.
+    unfold ov_step. rewrite (refines MemFS (d_ov d) _ HE).
+    destruct (spec_step (d_ov d) (Mknod p perm dev)) as [v1 r'] eqn:Ev. cbn [fst snd] in *.
+    rewrite (keeps_eq r' r Kv Kh P2). split; [exact P1 | reflexivity].
   - (* Readnod: os.Stat first (its error is returned), then the overlay *) env2 Hv HL. env2 Hv HE.
     assert (Hst : hplain_r (Stat p) = true) by exact Hv.
     rewrite (host_call_r _ _ Hr Hst).
@@ -308,6 +314,28 @@ Proof.
   - (* GetXattr *) env2 Hv HE. apply (L_ov d (GetXattr p a) Hs eq_refl HE).
   - (* RemoveXattr *) env2 Hv HE. apply (L_ov d (RemoveXattr p a) Hs eq_refl HE).
   - (* ListXattrs *) env2 Hv HE. apply (L_ov d (ListXattrs p) Hs eq_refl HE).
+Qed.
+
+(* Mknod of a name that is taken (fix bfd5027; was finding C17-F20): nothing changes, on either
+   side, and the answer is ErrExist *)
+Theorem mknod_existing : forall d p perm dev, dsync d -> is_dir (heap (d_host d)) 0 = true ->
+  clean_leaf_path p = true -> E MemFS (d_ov d) (Mknod p perm dev) = true ->
+  snd (spec_step (d_host d) (Mknod p perm dev)) = OErr EExist ->
+  dirfs_step d (Mknod p perm dev) = (d, OErr EExist).
+Proof.
+  intros d p perm dev Hs Hr Hp HE Hx.
+  assert (Hv : denv_r d (Mknod p perm dev) = true).
+  { unfold denv_r. cbn [denv_g hplain_r]. rewrite Hp, HE, Hx. reflexivity. }
+  pose proof (dirfs_refines_r d _ Hs Hr Hv) as R. unfold dref in R. cbn [ov_only] in R.
+  pose proof (fail_same (d_host d) (Mknod p perm dev) eq_refl) as Fh. rewrite Hx in Fh. specialize (Fh eq_refl).
+  destruct (dirfs_step d (Mknod p perm dev)) as [d' r] eqn:Ed. destruct R as [_ R].
+  destruct (spec_step (d_host d) (Mknod p perm dev)) as [h1 r1] eqn:Eh. cbn [fst snd] in *. subst r1 h1.
+  inversion R; subst r. f_equal.
+  (* the overlay: its Mknod failed too, so it is where it was *)
+  cbn [dirfs_step] in Ed. rewrite (host_call_r (d_host d) (Mknod p perm dev) Hr Hp), Eh in Ed. cbn [mknod_fallback] in Ed.
+  unfold ov_step in Ed. destruct (model_step MemFS (d_ov d) (Mknod p perm dev)) as [v1 r'] eqn:Em.
+  inversion Ed; subst. rewrite (model_failure_no_change MemFS (d_ov d) _ v1 (OErr EExist) Em eq_refl eq_refl).
+  destruct d; reflexivity.
 Qed.
 
 (* ---- sequences --------------------------------------------------------------------------------- *)
@@ -415,7 +443,7 @@ Proof.
   - (* Link *) destruct (climbs old); [exact I | apply hto_inv; assumption].
   - (* Mknod *)
     pose proof (ovinv_step w (d_ov d) (Mknod p perm dev) I Ht Hw) as A. unfold ov_step.
-    destruct (host_call (d_host d) (Mknod p perm dev)) as [h1 r]. destruct (is_failure r).
+    destruct (host_call (d_host d) (Mknod p perm dev)) as [h1 r]. destruct (mknod_fallback r).
     + destruct (host_call (d_host d) (WriteFile p [] 0%N)) as [h2 r2]. destruct (is_failure r2); [exact I|].
       destruct (model_step MemFS (d_ov d) (Mknod p perm dev)) as [v1 r']. exact A.
     + destruct (model_step MemFS (d_ov d) (Mknod p perm dev)) as [v1 r']. exact A.
